@@ -9,7 +9,7 @@ EXPLANATION = (
     "data[token.index]; LiftStorage reaches the storage only through append and indexing. With these, density, stability of earlier "
     "tokens and first-equal semantics hold for every history and every PartialEq (including values unequal to themselves). "
     "Truncation of the index past 2^32 elements is not decided.")
-EXHAUSTIVE = True
+EXHAUSTIVE = False     # the abstract inputs are a stated finite scope, not the whole input space
 
 STO = "rspirv::sr::storage"
 
